@@ -187,9 +187,9 @@ def flatten(cd):
 
 
 EDITS = ["none", "none", "insert_nops", "insert_nops_big", "duplicate_instruction", "drop_instruction", "drop_additional_args", "shift_override",
-         "collide_override", "collide_override_eq", "retarget_jump", "clear_lines", "append_block", "negative_override"]
+         "collide_override", "collide_override_eq", "retarget_jump", "clear_lines", "append_block", "negative_override", "alias_instruction"]
 # edits after which the position overrides may be inconsistent (to_code may then raise instead)
-MAY_BE_INCONSISTENT = set(["drop_instruction", "drop_additional_args", "shift_override", "collide_override", "collide_override_eq", "negative_override"])
+MAY_BE_INCONSISTENT = set(["drop_instruction", "drop_additional_args", "shift_override", "collide_override", "collide_override_eq", "negative_override", "alias_instruction"])
 
 
 def edit(cd, rng, op):
@@ -233,6 +233,20 @@ def edit(cd, rng, op):
         if not cd._additional_args:
             return None, "no additional args"
         return dc.replace(cd, _additional_args=()), "dropped %d additional args" % len(cd._additional_args)
+    if op == "alias_instruction":
+        # the very same Instruction object at two positions (hand-built data shares objects freely): operands belong to positions
+        cands = [(bi, ii) for bi, b in enumerate(blocks) for ii, ins in enumerate(b)
+                 if type(ins.arg).__name__ == "Jump" and ins.arg.relative and ins.arg.target > bi]
+        other = [(bi, ii) for bi, b in enumerate(blocks) for ii, ins in enumerate(b) if type(ins.arg).__name__ in ("Freevar", "Name", "Constant")]
+        if not cands and not other:
+            return None, "no candidate"
+        bi, ii = rng.choice(cands) if cands else rng.choice(other)
+        ins = blocks[bi][ii]
+        at = rng.randrange(0, ii + 1)
+        blocks[bi].insert(at, ins)
+        if rng.random() < 0.5:
+            blocks[bi].insert(at, dc.replace(ins, name="NOP", arg=cdm.NoArg(0)) if hasattr(cdm, "NoArg") else ins)
+        return dc.replace(cd, blocks=tuple(tuple(x) for x in blocks)), "same %s object of block %d also at index %d" % (ins.name, bi, at)
     if op == "negative_override":
         # a position below zero (any integer is a valid JSON value for the field): the first use of some table entry is pinned there,
         # the entries after it keep counting upwards, so the largest position can still equal the table length minus one
